@@ -366,7 +366,7 @@ pub fn derive_arbitrary_selection(tree: &MNode, ch: &mut Choices) -> Map<String,
                 let n = ch.pick(3);
                 let mut o = Map::new();
                 for _ in 0..n {
-                    let k = ["a", "zz", "_sd", "...", "iss", "", "b", "0", "_sd_alg", "cnf"][ch.pick(10)];
+                    let k = ["a", "zz", "_sd", "...", "iss", "", "b", "0", "_sd_alg", "cnf", "1", "18446744073709551614", "4611686018427387904", "-1", "00"][ch.pick(15)];
                     o.insert(k.to_string(), junk(ch, depth + 1));
                 }
                 Value::Object(o)
